@@ -253,7 +253,16 @@ class DataInputAbstract(MCNP_Object):
         elif self.prefix > other.prefix:
             return type_comp
         else:  # otherwise first part is equal
-            return self._input_number.value < other._input_number.value
+            numbers = [
+                data_input._input_number.value
+                if data_input._input_number is not None
+                else None
+                for data_input in (self, other)
+            ]
+            if None in numbers:
+                # inputs of one kind that have no number (CUT:N, CUT:P) are ordered by their full name
+                return str(self._classifier).lower() < str(other._classifier).lower()
+            return numbers[0] < numbers[1]
 
     @property
     def class_prefix(self):  # pragma: no cover
